@@ -9,12 +9,11 @@ Proof. vm_compute. reflexivity. Qed.
 Lemma audit_has_no_stale_entry : audit_live sites = true.
 Proof. vm_compute. reflexivity. Qed.
 
-(* exactly three places remain where an iteration order can reach output; two
-   are diagnostics' detail text for which no input was found, one is the
-   stdout listing of --find-unused-attributes *)
+(* exactly two places remain where an iteration order can reach output (phase 4: the join in Signature.validate is proved to run over at most one element):
+   the first-success loop over artificial_bases (insensitive iff the successes agree, no input
+   found) and the stdout listing of --find-unused-attributes (witnessed, not a diagnostic) *)
 Lemma residual_sites_are_exactly : map (fun s => (s_func s, s_expr s)) (filter is_residual sites) =
-  [ ("Signature.validate", "disallowed_previous");
-    ("TypeObject.can_assign", "other.artificial_bases");
+  [ ("TypeObject.can_assign", "other.artificial_bases");
     ("ClassAttributeChecker.check_unused_attributes", "existing_attrs - attrs_read - ignored") ]%string.
 Proof. vm_compute. reflexivity. Qed.
 
@@ -25,3 +24,23 @@ Lemma acceptable_kind_is_insensitive : forall s k,
 Proof.
   intros s k Hc Hv. unfold classified in Hc. destruct Hv as [Hv|[c Hv]]; rewrite Hv in Hc; exact Hc.
 Qed.
+
+(* Signature.validate joins `seen_kinds - KIND_TO_ALLOWED_PREVIOUS[kind]`.  The only caller that
+   shows the text builds its parameters from POSITIONAL_ONLY and VAR_POSITIONAL; for every such
+   kind, and every set of previously seen kinds among those two, at most one kind is disallowed --
+   a join over at most one element has a single arrangement.  Computed over the table
+   regenerated from signature.py. *)
+Definition allowed_for (k : string) : list string :=
+  match find (fun p => String.eqb (fst p) k) allowed_previous with
+  | Some p => snd p
+  | None => []
+  end%list.
+Definition str_mem (x : string) (l : list string) : bool := existsb (String.eqb x) l.
+Definition disallowed (seen : list string) (k : string) : list string :=
+  filter (fun s => negb (str_mem s (allowed_for k))) seen.
+
+Lemma validate_join_is_singleton :
+  forallb (fun k => Nat.leb (length (disallowed ["POSITIONAL_ONLY"; "VAR_POSITIONAL"]%string k)) 1)
+          ["POSITIONAL_ONLY"; "VAR_POSITIONAL"]%string = true
+  /\ allowed_for "POSITIONAL_ONLY" <> []%list /\ allowed_for "VAR_POSITIONAL" <> []%list.
+Proof. vm_compute. repeat split; discriminate. Qed.
